@@ -54,7 +54,8 @@ MANIFEST = {
              "same program (groups, exclusive groups, set_defaults, parents=, prefix_chars, namespace=) with stand-in "
              "options; the constructor / set_defaults / add_argument_group overrides are covered only this way. Scope: "
              "parse_args and parse_known_args; parse_intermixed_args is generated and is an open finding (post-processing "
-             "runs twice), as is set_defaults(config_path=...). Model tied to the code by three ops: _postprocessing on "
+             "runs twice). set_defaults keyword routing: every keyword that is not a dataclass destination reaches argparse "
+             "(theorem; a keyword `config_path` was swallowed before fix a66f307 — kept as regression cases). Model tied to the code by three ops: _postprocessing on "
              "captured and edited raw namespaces / parser state, parse_known_args / parse_args end to end with the stdlib "
              "parser (carrying copies of the real actions) as the engine, set_defaults keyword routing."),
     "note": ("Trusted: Lean kernel + standard axioms; stdlib argparse; the harness (program generator, twin construction, "
@@ -303,7 +304,7 @@ def ctor_kwargs(pc):
     return kw
 
 
-def replay_decls(parser, decls, on_add_arguments=None, drop_config_path=False):
+def replay_decls(parser, decls, on_add_arguments=None):
     """apply a declaration list to a parser (real simple-parsing parser or the stdlib twin)"""
     containers = []
     for d in decls:
@@ -316,7 +317,7 @@ def replay_decls(parser, decls, on_add_arguments=None, drop_config_path=False):
         elif k == "mutex":
             containers.append(tgt.add_mutually_exclusive_group(required=d.get("required", False)))
         elif k == "set_defaults":
-            parser.set_defaults(**{key: pyval(v) for key, v in d["kv"].items() if not (drop_config_path and key == "config_path")})
+            parser.set_defaults(**{key: pyval(v) for key, v in d["kv"].items()})
         elif k == "add_arguments":
             if on_add_arguments is not None:
                 on_add_arguments(d["reg"])
@@ -366,14 +367,12 @@ def build_sp(c, classes):
     return parser
 
 
-def build_twin(c, standins, keep_dest, with_parents=True, drop_config_path=None):
+def build_twin(c, standins, keep_dest, with_parents=True):
     kw = ctor_kwargs(c["parser"])
     if c.get("parents") and with_parents:
         kw["parents"] = make_parents(c["parents"], False)
     twin = argparse.ArgumentParser(**kw)
-    # the ENGINE twin (keep_dest) stands for `super().parse_known_args` of the real parser, whose `_defaults` never get
-    # a `config_path` key (open finding C09-set-defaults-config-path); the ORACLE twin is plain argparse
-    replay_decls(twin, c["decls"], drop_config_path=keep_dest if drop_config_path is None else drop_config_path)
+    replay_decls(twin, c["decls"])
     for i, a in enumerate(standins):
         a2 = copy.copy(a)
         if not keep_dest:
@@ -430,7 +429,7 @@ def impl_set_defaults(c):
                        "classes": c["classes"], "regs": c["regs"]}, classes)
     before = set(parser._defaults)
     wd = [r["dest"] for r in c["regs"]]
-    kw = {k: ({} if k in wd else (("no_such_file_c09.yaml" if c["cp_truthy"] else None) if k == "config_path" else 1))
+    kw = {k: ({} if k in wd else (("no_such_file_c09.yaml" if c.get("cp_truthy", True) else None) if k == "config_path" else 1))
           for k in c["kw"]}
     r = sp.run_outcome(lambda: parser.set_defaults(**kw))
     return {"o": r["o"], "exc": r.get("exc"), "passed": sorted(set(parser._defaults) - before),
@@ -481,11 +480,6 @@ def impl(case):
     obs["pre_fail"] = None if pre_fail is None else {k: pre_fail.get(k) for k in ("o", "code", "exc", "msg")}
 
     obs["twin"] = outcome(lambda: call_api(build_twin(c, standins, keep_dest=False), c["api"], argv, c.get("namespace")))
-
-    if has_config_path_default(c):
-        # reference for the open finding C09-set-defaults-config-path: argparse WITHOUT that one default
-        obs["twin_no_cp"] = outcome(lambda: call_api(build_twin(c, standins, keep_dest=False, drop_config_path=True),
-                                                     c["api"], argv, c.get("namespace")))
 
     if case["op"] == "post.parse":
         obs["engine"] = outcome(
@@ -538,7 +532,7 @@ def defaults_keys(c):
     ks = []
     for d in c["decls"] + [d for ps in c.get("parents", []) for d in ps["decls"]]:
         if d["k"] == "set_defaults":
-            ks += [k for k in d["kv"].keys() if k != "config_path"]
+            ks += list(d["kv"].keys())
     return sorted(set(ks))
 
 
@@ -594,7 +588,7 @@ def model_case(case, obs):
         return {"ps": ps, "engine": eng, "api": c["api"], "argv": c["argv"], "user_dests": user_dests(c), "pre": pre,
                 "sp_dests": sorted({f["dest"] for w in ps["wrappers"] for f in w["fields"]})}
     if case["op"] == "post.set_defaults":
-        return {"wrapper_dests": [r["dest"] for r in c["regs"]], "kw": c["kw"], "cp_truthy": c["cp_truthy"]}
+        return {"wrapper_dests": [r["dest"] for r in c["regs"]], "kw": c["kw"]}
     if obs["unit"]["o"] == "nosetup":
         return {"skip": "preprocessing failed"}
     raw = obs.get("unit_raw") or {}
@@ -776,28 +770,6 @@ def oracle(case, obs):
                    [r["dest"] for r in c["regs"] if r.get("suppress")])
 
 
-def has_config_path_default(c):
-    return any(d["k"] == "set_defaults" and "config_path" in d["kv"]
-               for prog in [c["decls"]] + [ps["decls"] for ps in c.get("parents", []) if ps.get("sp")] for d in prog)
-
-
-def _set_defaults_config_path(case, obs, fail):
-    """`set_defaults(config_path=…)` on a simple-parsing parser binds the method's own first parameter (parsing.py:385):
-    a string is opened as a config file at declaration time (FileNotFoundError …), None / other falsy values are
-    dropped — argparse stores the value under `config_path`"""
-    c = case["case"]
-    if not has_config_path_default(c):
-        return False
-    if fail.get("clause") == "decision" and obs["sp"].get("phase") == "declare" and obs["sp"]["o"] == "raise":
-        return True
-    if "twin_no_cp" not in obs:
-        return False
-    # the failure disappears when the reference is argparse without that default: the difference is exactly the
-    # swallowed keyword
-    return fail not in compare(c, obs["sp"], obs["twin_no_cp"], [r["dest"] for r in c["regs"]], has_subgroup(c),
-                               [r["dest"] for r in c["regs"] if r.get("suppress")])
-
-
 def _intermixed(case, obs, fail):
     """parse_intermixed_args / parse_known_intermixed_args call the overridden parse_known_args twice, so the
     post-processing runs twice: RuntimeError "Namespace should not already have a '<dest>' attribute" """
@@ -826,7 +798,6 @@ def _help_after_bad_subgroup(case, obs, fail):
 
 
 FINDINGS = {"C09-help-after-bad-subgroup": _help_after_bad_subgroup,
-            "C09-set-defaults-config-path": _set_defaults_config_path,
             "C09-intermixed": _intermixed}
 
 
